@@ -231,7 +231,11 @@ pub fn run(seed: u64, count: usize, max_n: usize, out: &mut impl Write) {
         }
         a.extend(comp_args(&c1));
         let e = exec(&a, None, 60);
-        cx.emit_set(&format!("to_bvgraph_v{variant}"), &base1, &g1, &e, &c1, "");
+        let xinfo = if variant == 2 {
+            let perm: Vec<usize> = std::fs::read_to_string(dir.join("perm.txt")).unwrap().lines().map(|l| l.parse().unwrap()).collect();
+            format!("xsrc={} xop=perm:{}", fmt_lists(&g), fmt_ints(&perm))
+        } else { format!("xsrc={} xop=id", fmt_lists(&g)) };
+        cx.emit_set(&format!("to_bvgraph_v{variant}"), &base1, &g1, &e, &c1, &xinfo);
         // 5. to endianness
         let base2 = dir.join("g2");
         let e = exec(&[s("to"), s("endianness"), p(&base0), p(&base2)], None, 60);
@@ -248,14 +252,16 @@ pub fn run(seed: u64, count: usize, max_n: usize, out: &mut impl Write) {
         let which = rng.below(5);
         let base3 = dir.join("g3");
         let tt = rng.pick(&[1usize, 2, 16]).to_string();
+        let mut xop = String::new();
         let (name, mut a, g3): (&str, Vec<String>, Graph) = match which {
-            0 => ("transpose", vec![s("transform"), s("transpose"), p(&base0), p(&base3), s("-t"), tt], transpose(&g)),
-            1 => ("symmetrize", vec![s("transform"), s("symmetrize"), p(&base0), p(&base3), s("-t"), tt], symmetrize(&g, false)),
-            2 => ("symmetrize_noloops", vec![s("transform"), s("symmetrize"), p(&base0), p(&base3), s("--no-loops"), s("-t"), tt], symmetrize(&g, true)),
+            0 => { xop = "transpose".into(); ("transpose", vec![s("transform"), s("transpose"), p(&base0), p(&base3), s("-t"), tt], transpose(&g)) }
+            1 => { xop = "symm".into(); ("symmetrize", vec![s("transform"), s("symmetrize"), p(&base0), p(&base3), s("-t"), tt], symmetrize(&g, false)) }
+            2 => { xop = "symmnl".into(); ("symmetrize_noloops", vec![s("transform"), s("symmetrize"), p(&base0), p(&base3), s("--no-loops"), s("-t"), tt], symmetrize(&g, true)) }
             3 => {
                 let mut perm: Vec<usize> = (0..n).collect(); rng.shuffle(&mut perm);
                 let pp = dir.join("perm2.txt");
                 std::fs::write(&pp, perm.iter().map(|x| format!("{x}\n")).collect::<String>()).unwrap();
+                xop = format!("perm:{}", fmt_ints(&perm));
                 ("perm", vec![s("transform"), s("perm"), p(&base0), p(&base3), p(&pp), s("-t"), tt], map_graph(&g, &perm, n))
             }
             _ => {
@@ -263,13 +269,14 @@ pub fn run(seed: u64, count: usize, max_n: usize, out: &mut impl Write) {
                 let f: Vec<usize> = (0..n).map(|_| rng.below(n2)).collect();
                 let pp = dir.join("map.txt");
                 std::fs::write(&pp, f.iter().map(|x| format!("{x}\n")).collect::<String>()).unwrap();
+                xop = format!("map:{}:{}", n2, fmt_ints(&f));
                 ("map", vec![s("transform"), s("map"), p(&base0), p(&base3), p(&pp), s("--num-nodes"), n2.to_string(), s("-t"), tt], map_graph(&g, &f, n2))
             }
         };
         if rng.chance(1, 3) { a.push(s("-s")); }
         a.extend(comp_args(&c3));
         let e = exec(&a, None, 60);
-        cx.emit_set(name, &base3, &g3, &e, &c3, "");
+        cx.emit_set(name, &base3, &g3, &e, &c3, &format!("xsrc={} xop={}", fmt_lists(&g), xop));
         let _ = std::fs::remove_dir_all(&cx.dir);
     }
 }
